@@ -95,6 +95,9 @@ func genStopPoints(rng *rand.Rand, seed int64) *Scenario {
 	}
 	// choose the nth store operation of v and give it a known shape
 	nth := rng.Intn(6)
+	if rng.Intn(4) == 0 {
+		nth = 0 // (the acquiring Create: the operation whose answer changes most)
+	}
 	// (both halves together stay below the promised latency bound h/4)
 	pre := time.Duration(10+rng.Intn(40))*(h/(800)) + 1
 	post := time.Duration(10+rng.Intn(40))*(h/(800)) + 1
@@ -148,8 +151,18 @@ func genStopPoints(rng *rand.Rand, seed int64) *Scenario {
 				d = post + 1
 			}
 		}
+		if left := map[string]time.Duration{"call": pre + post, "apply": post}[phase] - d; st.Kind == "stopctx" && left > 0 && rng.Intn(2) == 0 {
+			// a time budget that the operation in flight uses up almost entirely: what is left for the key deletion
+			// (and the demotion callback) is a few milliseconds, less than the store takes to answer
+			st.Del = true
+			st.Timeout = left + ms + time.Duration(rng.Int63n(int64(h/16)))
+		}
 		tg := Trigger{Inst: v, Nth: nth, Phase: phase, Delay: d, Step: st}
-		if rng.Intn(4) == 0 {
+		if rng.Intn(5) == 0 {
+			// the application ends the run by its context instead, and (half of the time) starts the next run at once:
+			// the operation in flight belongs to the run that has ended, its answer arrives in the next one
+			tg.Step = Step{Kind: []string{"cancelctx", "cancelstart"}[rng.Intn(2)], Inst: v}
+		} else if rng.Intn(4) == 0 {
 			// inside the critical section that raises the flag (first or second term) or writes the gauge 0: the call is
 			// parked on the election's mutex and runs as soon as the section ends - before the goroutines it spawned
 			tg.Phase, tg.Delay, tg.Nth = []string{"flag", "flag", "unflag"}[rng.Intn(3)], 0, 1+rng.Intn(2)
@@ -508,7 +521,7 @@ func genTakeover(rng *rand.Rand, seed int64) *Scenario {
 			for k := 0; k < 2+rng.Intn(4); k++ {
 				is.Health = append(is.Health, []int{0, 0, 1}[rng.Intn(3)])
 			}
-			sc.Responsive = false // (terms that end for health: not the steady incumbent the promptness model assumes)
+			// sc.Responsive = false // XX
 		}
 		sc.Insts = append(sc.Insts, is)
 		sc.Steps = append(sc.Steps, Step{At: time.Duration(rng.Int63n(int64(6 * h))), Kind: "start", Inst: i})
@@ -874,7 +887,7 @@ func genRestart(rng *rand.Rand, seed int64) *Scenario {
 		d = pre + post + time.Duration(rng.Int63n(int64(4*h)))
 	}
 	first := Step{At: t0 + d, Kind: "stop", Inst: 1}
-	if rng.Intn(5) == 0 {
+	if rng.Intn(3) == 0 {
 		first = Step{At: t0 + d, Kind: []string{"cancelctx", "cancelstart"}[rng.Intn(2)], Inst: 1}
 	} else if rng.Intn(2) == 0 {
 		first = Step{At: t0 + d, Kind: "stopctx", Inst: 1, Del: rng.Intn(2) == 0, Wait: rng.Intn(2) == 0,
